@@ -213,10 +213,10 @@ func (t *TCCServiceProxy) getOrCreateBusinessActionContext(params interface{}) *
 	n := typ.NumField()
 	for i := 0; i < n; i++ {
 		sf := typ.Field(i)
-		if sf.Type == rm.TypBusinessContextInterface {
-			v := val.Field(i).Interface()
-			if v != nil {
-				return v.(*tm.BusinessActionContext)
+		if sf.Type == rm.TypBusinessContextInterface && val.Field(i).CanInterface() {
+			// a nil *BusinessActionContext field means "create a new one"
+			if v := val.Field(i).Interface().(*tm.BusinessActionContext); v != nil {
+				return v
 			}
 		}
 		if sf.Type == reflect.TypeOf(tm.BusinessActionContext{}) && val.Field(i).CanInterface() {
